@@ -1816,3 +1816,48 @@ B('k18_context_skipped_for_seen_groups', ['C18'], 'R18.c', (META, GMAIN, '''    
             full_ctx.setdefault(peri.group_key, {}).update(peri_ctx)
         return full_ctx
 '''))
+
+# ---- R18.d: what the resource listing produces is what its section template shows (table agreement) --------------------------
+RES_TPL = 'clastic/meta_resource_section.html'
+B('k18_listing_row_key_renamed', ['C18'], 'R18.d', (META, "        ret.append({'key': key, 'value': trunc_val})", "        ret.append({'key': key, 'val': trunc_val})"))
+B('k18_listing_context_key_renamed', ['C18'], 'R18.d', (META, "        return {'resources': get_resource_info(_application)}", "        return {'resource_list': get_resource_info(_application)}"))
+B('k18_listing_template_other_column', ['C18'], 'R18.d', (RES_TPL, "{.value}", "{.val}"))
+B('k18_listing_template_drops_value', ['C18'], 'R18.d', (RES_TPL, "<td>{.key}</td><td>{.value}</td>", "<td>{.key}</td>"))
+B('k18_listing_template_other_section', ['C18'], 'R18.d', (RES_TPL, "  {#resources}\n", "  {#resource_list}\n"), (RES_TPL, "  {/resources}\n</table>", "  {/resource_list}\n</table>"))
+B('k18_listing_rows_by_helper_key_renamed', ['C18'], 'R18.d', (META, GRI, '''def _resource_row(name, shown):
+    return {'name': name, 'value': shown}
+
+
+def get_resource_info(_application):
+    ret = []
+    for key, val in _application.resources.items():
+        ret.append(_resource_row(key, '[REDACTED]' if 'secret' in key else _trunc(repr(val))))
+    return ret
+'''))
+T('k18_listing_renamed_consistently', ['C18'], (META, "        ret.append({'key': key, 'value': trunc_val})", "        ret.append({'key': key, 'shown': trunc_val})"),
+  (RES_TPL, "{.value}", "{.shown}"))
+T('k18_listing_rows_dict_call', ['C18'], (META, "        ret.append({'key': key, 'value': trunc_val})", "        ret.append(dict(key=key, value=trunc_val))"))
+T('k18_listing_rows_slot_by_slot', ['C18'], (META, "        ret.append({'key': key, 'value': trunc_val})", "        row = {}\n        row['key'] = key\n        row['value'] = trunc_val\n        ret.append(row)"))
+T('k18_listing_rows_by_helper', ['C18'], (META, GRI, '''def _resource_row(name, shown):
+    return {'key': name, 'value': shown}
+
+
+def get_resource_info(_application):
+    ret = []
+    for key, val in _application.resources.items():
+        ret.append(_resource_row(key, '[REDACTED]' if 'secret' in key else _trunc(repr(val))))
+    return ret
+'''))
+T('k18_listing_context_via_local', ['C18'], (META, "        return {'resources': get_resource_info(_application)}", "        rows = get_resource_info(_application)\n        ctx = {}\n        ctx['resources'] = rows\n        return ctx"))
+# (what the framework injects into the routed view -- an argument of the URL -- is the same for every section)
+T('k18_context_guarded_by_view_argument', ['C18'], (META, GMAIN, '''        wanted = request.args.get('group')
+        for peri in self.peripherals:
+            if wanted and peri.group_key != wanted:
+                continue
+            try:
+                peri_ctx = inject(peri.get_context, kwargs)
+            except Exception as e:
+                peri_ctx = {'exc_content': repr(e)}
+            full_ctx.setdefault(peri.group_key, {}).update(peri_ctx)
+        return full_ctx
+'''))
